@@ -32,6 +32,8 @@ pub enum Cmd {
     Exit(Option<u32>),
     SetE(bool),
     SetM(bool),
+    /// `set -o pipefail` / `set +o pipefail`
+    SetP(bool),
     /// no command name: status of the last command substitution in the words, in the redirections,
     /// in the assignments
     Absent(Option<u32>, Option<u32>, Option<u32>),
@@ -128,6 +130,7 @@ fn sx_cmd(c: &Cmd) -> String {
         Cmd::Exit(Some(n)) => format!("(exit {n})"),
         Cmd::SetE(b) => format!("(sete {})", *b as u8),
         Cmd::SetM(b) => format!("(setm {})", *b as u8),
+        Cmd::SetP(b) => format!("(setpf {})", *b as u8),
         Cmd::Absent(w, r, a) => {
             let f = |x: &Option<u32>| x.map_or("-".to_string(), |n| n.to_string());
             format!("(abs {} {} {})", f(w), f(r), f(a))
@@ -313,6 +316,7 @@ fn to_cmd(x: &Sx) -> Option<Cmd> {
         ("exit", 2) => Cmd::Exit(Some(num(&v[1])?)),
         ("sete", 2) => Cmd::SetE(num(&v[1])? != 0),
         ("setm", 2) => Cmd::SetM(num(&v[1])? != 0),
+        ("setpf", 2) => Cmd::SetP(num(&v[1])? != 0),
         ("abs", 4) => {
             let f = |x: &Sx| -> Option<Option<u32>> {
                 if atom(x)? == "-" { Some(None) } else { Some(Some(num(x)?)) }
@@ -647,6 +651,18 @@ impl Render {
                     (true, _) => &["set", "-o", "monitor"],
                     (false, 0) => &["set", "+m"],
                     (false, _) => &["set", "+o", "monitor"],
+                };
+                let v: Vec<String> = w.iter().map(|s| s.to_string()).collect();
+                self.simple(&v)
+            }
+            Cmd::SetP(on) => {
+                let w: &[&str] = match (*on, self.rng.below(3)) {
+                    (true, 0) => &["set", "-o", "pipefail"],
+                    (true, 1) => &["set", "-opipefail"],
+                    (true, _) => &["set", "-o", "pipe-fail"],
+                    (false, 0) => &["set", "+o", "pipefail"],
+                    (false, 1) => &["set", "+opipefail"],
+                    (false, _) => &["set", "-o", "nopipefail"],
                 };
                 let v: Vec<String> = w.iter().map(|s| s.to_string()).collect();
                 self.simple(&v)
@@ -1065,7 +1081,13 @@ impl Gen {
                 // not `ok` (a function in the real-binary prologue), `:` or the slash name
                 _ => Cmd::Freeze(*self.rng.pick(&["f0", "f1", "f2", "sbin", "sbout", "xtin"])),
             },
-            90 => Cmd::SetM(self.rng.chance(2, 3)),
+            90 => {
+                if self.rng.chance(1, 2) {
+                    Cmd::SetM(self.rng.chance(2, 3))
+                } else {
+                    Cmd::SetP(self.rng.chance(2, 3))
+                }
+            }
             _ => {
                 // a command whose status changes from one execution to the next
                 self.counter += 1;
@@ -1231,6 +1253,10 @@ impl Gen {
         if self.rng.chance(1, 5) {
             // job control in a script: pipelines then run in one more subshell
             lines.push(Line::Cmds(vec![Item(Pipeline(false, vec![Cmd::SetM(true)]), vec![])]));
+        }
+        if self.rng.chance(1, 4) {
+            // the exit status of a pipeline is that of the last command that failed
+            lines.push(Line::Cmds(vec![Item(Pipeline(false, vec![Cmd::SetP(true)]), vec![])]));
         }
         self.sig = self.rng.chance(1, 4);
         if self.sig {
